@@ -298,7 +298,9 @@ func tableApp(r *core.Run) {
 // T-num: the numeric tower at its boundaries, in BOTH tiers: every numeric builtin of arity <= 3 over boundary
 // integers (int64 limits, 2^53 neighbours), small ints, and floats (fractions, a huge one, zero).
 var numValues = []string{"0", "1", "-1", "2", "3", "7", "9223372036854775807", "-9223372036854775808", "9007199254740993", "-9007199254740992",
-	"0.5", "2.5", "-2.5", "1e21", "0.0"}
+	"0.5", "2.5", "-2.5", "1e21", "0.0",
+	// values that have no literal: not-a-number (unordered: every ordering relation with it is false) and the infinities
+	"(/ 0.0 0)", "(/ 1.0 0)", "(/ -1.0 0)"}
 
 var numTable = []bsig{{"+", 0, 3}, {"-", 0, 3}, {"*", 0, 3}, {"/", 1, 3}, {"mod", 2, 2}, {"pow", 2, 2}, {"max", 1, 3}, {"min", 1, 3},
 	{"<", 2, 2}, {"<=", 2, 2}, {">", 2, 2}, {">=", 2, 2}, {"=", 2, 2}}
